@@ -205,7 +205,7 @@ func runKernelOpt(sk, dk Kind, xs []uint64, named bool) ([]uint64, string) {
 	n := len(xs)
 	src := Alloc(sk, named, signal.Allocator{Channels: 1, Length: n, Capacity: n})
 	dst := Alloc(dk, named, signal.Allocator{Channels: 1, Length: n, Capacity: n})
-	fill := small(dk, 85)
+	fill := stalePattern(dk)
 	for i, x := range xs {
 		src.SetSample(i, x)
 		dst.SetSample(i, fill)
@@ -220,6 +220,15 @@ func runKernelOpt(sk, dk Kind, xs []uint64, named bool) ([]uint64, string) {
 		out[i] = dst.Sample(i)
 	}
 	return out, p
+}
+
+// stalePattern: what a destination holds before a kernel run - large enough to survive a narrowing
+// conversion back (0x5555... for integers, 0.3 for floats)
+func stalePattern(k Kind) uint64 {
+	if k.IsFloat() {
+		return floatCell(0.3, k)
+	}
+	return normCell(0x5555555555555555, k)
 }
 
 func runKernel(sk, dk Kind, xs []uint64) []uint64 {
@@ -280,7 +289,7 @@ func runKernelShaped(sk, dk Kind, xs []uint64, ch int) []uint64 {
 	frames, rem := n/ch, n%ch
 	src := Alloc(sk, false, signal.Allocator{Channels: ch, Length: frames, Capacity: frames + 1})
 	dst := Alloc(dk, false, signal.Allocator{Channels: ch, Length: frames, Capacity: frames + 1})
-	fill := small(dk, 85)
+	fill := stalePattern(dk)
 	for i := 0; i < frames*ch; i++ {
 		src.SetSample(i, xs[i])
 		dst.SetSample(i, fill)
